@@ -578,8 +578,18 @@ func (s *SpecValidator) validateRequiredDefinitions() *Result {
 	// Each property listed in the required array must be defined in the properties of the model
 	res := pools.poolOfResults.BorrowResult()
 
+	// definitions are visited in the order of their names: when stopping at the first error,
+	// the error reported must not depend on the iteration order of the map
+	definitions := s.spec.Spec().Definitions
+	names := make([]string, 0, len(definitions))
+	for d := range definitions {
+		names = append(names, d)
+	}
+	sort.Strings(names)
+
 DEFINITIONS:
-	for d, schema := range s.spec.Spec().Definitions {
+	for _, d := range names {
+		schema := definitions[d]
 		if schema.Required != nil { // Safeguard
 			for _, pn := range schema.Required {
 				red := s.validateRequiredProperties(pn, d, &schema) //#nosec
